@@ -64,7 +64,7 @@ for key in sorted(detect):
     sid = '%s-%s' % (prop, k)
     dst = os.path.join(OUT, sid)
     os.makedirs(dst, exist_ok=True)
-    for f in ('patch.diff', 'demo.diff', 'demo.sh', 'notes.md'):
+    for f in ('patch.diff', 'demo.diff', 'demo.sh', 'notes.md', 'patch.orig.diff', 'demo.orig.diff'):
         if os.path.exists(os.path.join(sd, f)):
             shutil.copy(os.path.join(sd, f), os.path.join(dst, f))
     title, needs = TITLES.get(key, ('', ''))
@@ -79,9 +79,16 @@ for key in sorted(detect):
                    for d in detect[key]],
         detected=bool(caught),
         history=HISTORY.get(key, ''),
+        rebased=('patch.diff / demo.diff were rebased onto the repaired tree; the sub-agent\'s originals are patch.orig.diff / demo.orig.diff' if os.path.exists(os.path.join(sd, 'patch.orig.diff')) else None),
     )
     json.dump(meta, open(os.path.join(dst, 'meta.json'), 'w'), indent=1)
     rows.append((sid, title, 'yes: ' + ', '.join(sorted(set(o for d in caught for o in d['violations']))[:3]) if caught else 'NO', HISTORY.get(key, '')))
 json.dump(rows, open(os.path.join(OUT, 'summary.json'), 'w'), indent=1)
+# markdown table for DESIGN.md section 8
+with open(os.path.join(OUT, 'TABLE.md'), 'w') as fh:
+    fh.write('| seed | change | what it needs to manifest | caught by (quick tier, final machinery) | history |\n|---|---|---|---|---|\n')
+    for sid, title, caught, hist in rows:
+        needs = TITLES.get(sid.replace('-', '/'), ('', ''))[1]
+        fh.write('| %s | %s | %s | %s | %s |\n' % (sid, title, needs, caught.replace('yes: ', '').replace('NO', '**not caught**'), hist))
 for r in rows:
     print(' | '.join(r))
